@@ -1,14 +1,41 @@
 """Deterministic environment for whole-object-graph harnesses: clock and randomness become fixed
-counters (each stub is an assumption listed in the evidence)."""
-import time, random, secrets, os
+counters (each stub is an assumption listed in the evidence).  Nothing is patched at import time;
+reset() installs the stubs (in the harness process) and rewinds the counters."""
+import os
+import random
+import secrets
+import time
+
 _t = [1000.0]
-def _time(): _t[0] += 0.001; return _t[0]
-time.time = _time; time.monotonic = _time
 _c = [0]
-def _next(n=256): _c[0] = (_c[0] * 1103515245 + 12345) % (2 ** 31); return _c[0] % n
-random.randint = lambda a, b: a + _next(b - a + 1)
-random.random = lambda: _next(1000) / 1000.0
-secrets.token_bytes = lambda n=32: bytes(_next() for _ in range(n))
-secrets.randbelow = lambda n: _next(n)
-os.urandom = lambda n: bytes(_next() for _ in range(n))
-def reset(): _t[0] = 1000.0; _c[0] = 0
+_installed = [False]
+
+
+def _time():
+    _t[0] += 0.001
+    return _t[0]
+
+
+def _next(n=256):
+    _c[0] = (_c[0] * 1103515245 + 12345) % (2 ** 31)
+    return (_c[0] >> 8) % n
+
+
+def install():
+    if _installed[0]:
+        return
+    _installed[0] = True
+    time.time = _time
+    time.monotonic = _time
+    random.randint = lambda a, b: a + _next(b - a + 1)
+    random.random = lambda: _next(1000) / 1000.0
+    random.getrandbits = lambda k: int.from_bytes(bytes(_next() for _ in range((k + 7) // 8)), 'big') % (1 << k)
+    secrets.token_bytes = lambda n=32: bytes(_next() for _ in range(n))
+    secrets.randbelow = lambda n: _next(n)
+    os.urandom = lambda n: bytes(_next() for _ in range(n))
+
+
+def reset():
+    install()
+    _t[0] = 1000.0
+    _c[0] = 0
